@@ -215,7 +215,21 @@ Definition c_set_rl (c : cctl) (p : crl) : cctl :=
 
 Definition is_ret_nil (p : cpc) : bool := match p with CPRet true => true | _ => false end.
 
-Definition composite_step (c : cctl) (l : ccl) (cur : st) : option (option op * (bool -> cctl)) :=
+(* Two switches.
+   [composite_teardown_serialized] (/repo 82de565, in the repository): Run's stopAllRunnables takes
+   reloadMu, i.e. waits for a Reload in flight ([CStopAllOk]/[CStopAllFail] need the reload thread idle).
+   [composite_run_excludes_reload] (candidate repair hooks/candidate-fix-c08-b-*.patch, NOT in the
+   repository): Run keeps reloadMu from there until it has returned, so no Reload can begin while Run
+   is between its teardown and its return.  [composite_step] is the variant the theorems and the
+   correspondence runs are about. *)
+Definition composite_teardown_serialized : bool := true.
+Definition composite_run_excludes_reload : bool := false.
+Definition c_rl_idle (c : cctl) : bool := match c_rl c with CRIdle => true | _ => false end.
+Definition c_run_holds_reloadmu (c : cctl) : bool :=
+  match c_run c with CPDown2 | CPRet true => true | _ => false end.
+
+Definition composite_stepx (ts fb : bool) (c : cctl) (l : ccl) (cur : st)
+  : option (option op * (bool -> cctl)) :=
   match l with
   | CRunCall => match c_run c with CP0 => ret None (fun _ => c_set_run c CPCalled) | _ => None end
   | CTBooting =>       (* Run: Transition(Booting); failure returns the error without touching the state *)
@@ -255,8 +269,16 @@ Definition composite_step (c : cctl) (l : ccl) (cur : st) : option (option op * 
     | CPDown0 => ret (Some (OTransIf Running Stopping)) (fun _ => c_set_run c CPDown1)
     | _ => None
     end
-  | CStopAllOk => match c_run c with CPDown1 => ret None (fun _ => c_set_run c CPDown2) | _ => None end
-  | CStopAllFail => match c_run c with CPDown1 => ret None (fun _ => c_set_run c CPFail) | _ => None end
+  | CStopAllOk =>
+    match c_run c with
+    | CPDown1 => if negb ts || c_rl_idle c then ret None (fun _ => c_set_run c CPDown2) else None
+    | _ => None
+    end
+  | CStopAllFail =>
+    match c_run c with
+    | CPDown1 => if negb ts || c_rl_idle c then ret None (fun _ => c_set_run c CPFail) else None
+    | _ => None
+    end
   | CTStopped =>
     match c_run c with
     | CPDown2 => ret (Some (OTrans Stopped)) (fun ok => c_set_run c (if ok then CPRet true else CPFail))
@@ -279,7 +301,11 @@ Definition composite_step (c : cctl) (l : ccl) (cur : st) : option (option op * 
   | CChildFail => ret None (fun _ => mkC (c_run c) (c_rl c) (c_stop c) (c_cancel c) true (c_late c))
   | CReloadCall => ret None (fun _ => c)
   | CReloadRet => ret None (fun _ => c)
-  | CRlBegin => match c_rl c with CRIdle => ret None (fun _ => c_set_rl c CRStart) | _ => None end
+  | CRlBegin =>        (* reloadMu.Lock() *)
+    match c_rl c with
+    | CRIdle => if fb && c_run_holds_reloadmu c then None else ret None (fun _ => c_set_rl c CRStart)
+    | _ => None
+    end
   | CRlT =>
     match c_rl c with
     | CRStart => ret (Some (OTrans Reloading)) (fun ok => c_set_rl c (if ok then CRCb else CRFail))
@@ -301,6 +327,8 @@ Definition composite_step (c : cctl) (l : ccl) (cur : st) : option (option op * 
     end
   | CRlDone => match c_rl c with CREnd => ret None (fun _ => c_set_rl c CRIdle) | _ => None end
   end.
+
+Definition composite_step := composite_stepx composite_teardown_serialized composite_run_excludes_reload.
 
 Definition composite_tok (l : ccl) : tokact :=
   match l with
@@ -358,10 +386,15 @@ Definition composite_key (c : cctl) : list N :=
 
 (* ================================================================== *)
 (* httpserver.Runner                                                   *)
-(* r.mutex is held by Reload from its first statement to its return, and by Run around boot()
-   and around stopServer(); neither of Run's two sections performs a machine call, so each is
-   one label enabled only while no Reload is in flight. setStateError = TransitionBool(Error),
-   and SetState(Error) only if that fails. *)
+(* r.mutex is held by Reload from its first statement to its return, and by Run around boot() and
+   from the Stopping transition to the end of stopServer().  boot() performs no machine call, so it
+   is one label enabled only while no Reload is in flight.  shutdown() (since /repo a31573a) takes
+   the mutex BEFORE Transition(Stopping) and keeps it across stopServer(): [HTStopping] needs the
+   mutex free (no Reload in flight) and no Reload can begin while Run is at [HPDown1]; the final
+   Transition(Stopped) is outside the mutex.  Legacy code (before a31573a) did Transition(Stopping)
+   outside the mutex: [http_stepx false]; [http_stop_locked] says which variant [http_step] - the one
+   the theorems and the correspondence runs are about - is.
+   setStateError = TransitionBool(Error), and SetState(Error) only if that fails. *)
 
 Inductive hpc :=
 | HP0 | HPCalled | HPBoot | HPBooted | HPSelect | HPDown0 | HPDown1 | HPDown2 | HPErrT | HPErrS
@@ -382,7 +415,10 @@ Definition h_set_run (c : hctl) (p : hpc) : hctl := mkH p (h_rl c) (h_stop c) (h
 Definition h_set_rl (c : hctl) (p : hrl) : hctl := mkH (h_run c) p (h_stop c) (h_cancel c) (h_srv c).
 Definition h_mu_free (c : hctl) : bool := match h_rl c with HRIdle => true | _ => false end.
 
-Definition http_step (c : hctl) (l : hcl) (cur : st) : option (option op * (bool -> hctl)) :=
+Definition http_stop_locked : bool := true.
+Definition h_run_holds_mu (c : hctl) : bool := match h_run c with HPDown1 => true | _ => false end.
+
+Definition http_stepx (fx : bool) (c : hctl) (l : hcl) (cur : st) : option (option op * (bool -> hctl)) :=
   match l with
   | HRunCall => match h_run c with HP0 => ret None (fun _ => h_set_run c HPCalled) | _ => None end
   | HTBooting =>
@@ -423,9 +459,10 @@ Definition http_step (c : hctl) (l : hcl) (cur : st) : option (option op * (bool
                   then ret None (fun _ => h_set_run c HPErrT) else None
     | _ => None
     end
-  | HTStopping =>      (* shutdown: Transition(Stopping), failure only logged *)
+  | HTStopping =>      (* shutdown: [mutex.Lock();] Transition(Stopping), failure only logged *)
     match h_run c with
-    | HPDown0 => ret (Some (OTrans Stopping)) (fun _ => h_set_run c HPDown1)
+    | HPDown0 => if negb fx || h_mu_free c
+                 then ret (Some (OTrans Stopping)) (fun _ => h_set_run c HPDown1) else None
     | _ => None
     end
   | HStopSrvOk =>
@@ -464,7 +501,11 @@ Definition http_step (c : hctl) (l : hcl) (cur : st) : option (option op * (bool
   | HSrvFail => ret None (fun _ => mkH (h_run c) (h_rl c) (h_stop c) (h_cancel c) true)
   | HReloadCall => ret None (fun _ => c)
   | HReloadRet => ret None (fun _ => c)
-  | HRlBegin => match h_rl c with HRIdle => ret None (fun _ => h_set_rl c HRStart) | _ => None end
+  | HRlBegin =>        (* r.mutex.Lock() *)
+    match h_rl c with
+    | HRIdle => if fx && h_run_holds_mu c then None else ret None (fun _ => h_set_rl c HRStart)
+    | _ => None
+    end
   | HRlT =>            (* failure: logged, return (no state change) *)
     match h_rl c with
     | HRStart => ret (Some (OTrans Reloading)) (fun ok => h_set_rl c (if ok then HRCfg else HREnd))
@@ -492,6 +533,8 @@ Definition http_step (c : hctl) (l : hcl) (cur : st) : option (option op * (bool
   | HRlErrS => match h_rl c with HRErrS => ret (Some SetErr) (fun _ => h_set_rl c HREnd) | _ => None end
   | HRlDone => match h_rl c with HREnd => ret None (fun _ => h_set_rl c HRIdle) | _ => None end
   end.
+
+Definition http_step := http_stepx http_stop_locked.
 
 Definition http_tok (l : hcl) : tokact :=
   match l with
